@@ -24,6 +24,7 @@ type Opts struct {
 	NoDescriptions    bool
 	NoModuleNamespace bool // do not print module / namespace / submodule of nodes
 	MaskXPathNS       bool // do not print the default namespace recorded with when / must expressions
+	ListsAsReported   bool // the features and deviations of a module in the order the schema reports them (not sorted): for run-to-run comparisons
 	XPathListing      bool // print the compiled machine of every when / must (namespace of every name test), unless the node's namespace is masked
 	// Prune, when set, skips a node (and its subtree) for which it returns false.
 	Prune func(n schema.Node) bool
@@ -395,9 +396,11 @@ func Dump(ms schema.ModelSet, o Opts) string {
 		m := mods[name]
 		if !o.NoModelAttrs {
 			feats := append([]string(nil), m.Features()...)
-			sort.Strings(feats)
 			devs := append([]string(nil), m.Deviations()...)
-			sort.Strings(devs)
+			if !o.ListsAsReported {
+				sort.Strings(feats)
+				sort.Strings(devs)
+			}
 			line := fmt.Sprintf("module key=%s id=%s ns=%s version=%q", name, m.Identifier(), m.Namespace(), m.Version())
 			if !o.NoFeatures {
 				line += fmt.Sprintf(" features=%v", feats)
